@@ -23,7 +23,7 @@ PNext == UNCHANGED sid /\ Next
 PSpec == PInit /\ [][PNext]_pvars
 
 StCode(X, n) == IF X.nstart[n] = 0 THEN 0
-                ELSE CASE X.st[n] = "ok" -> 1 [] X.st[n] = "exc" -> 2 [] X.st[n] = "cancelled" -> 3 [] OTHER -> 9
+                ELSE CASE X.st[n] = "ok" -> 1 [] X.st[n] = "exc" -> 2 [] X.st[n] = "cancelled" -> 3 [] X.st[n] = "selfc" -> 4 [] OTHER -> 9
 ResCode(X, n) == CASE X.res[n][1] = "ret" -> <<1, X.res[n][2]>>
                    [] X.res[n][1] = "exc" -> <<2, X.res[n][2]>>
                    [] X.res[n][1] = "true" -> <<3, 0>>
